@@ -6,14 +6,24 @@ package main
 
 import (
 	"bytes"
+	"crypto/ecdsa"
+	"crypto/elliptic"
+	crand "crypto/rand"
 	"crypto/tls"
+	"crypto/x509"
+	"crypto/x509/pkix"
 	"errors"
 	"fmt"
 	"io"
+	"math/big"
 	"math/rand"
 	"net"
+	"net/url"
 	"strings"
+	"sync"
 	"time"
+
+	gkm "github.com/go-kit/kit/metrics"
 
 	"github.com/fabiolb/fabio/proxy/tcp"
 	"github.com/fabiolb/fabio/route"
@@ -90,6 +100,70 @@ func realHello(cfg *tls.Config) []byte {
 	return append(hdr, body...)
 }
 
+// selfSigned makes the certificate of the throw-away TLS server used to complete handshakes.
+func selfSigned() (tls.Certificate, error) {
+	key, err := ecdsa.GenerateKey(elliptic.P256(), crand.Reader)
+	if err != nil {
+		return tls.Certificate{}, err
+	}
+	tmpl := &x509.Certificate{SerialNumber: big.NewInt(1), Subject: pkix.Name{CommonName: "verif"},
+		NotBefore: time.Now().Add(-time.Hour), NotAfter: time.Now().Add(24 * time.Hour),
+		KeyUsage: x509.KeyUsageDigitalSignature, ExtKeyUsage: []x509.ExtKeyUsage{x509.ExtKeyUsageServerAuth}}
+	der, err := x509.CreateCertificate(crand.Reader, tmpl, tmpl, &key.PublicKey, key)
+	if err != nil {
+		return tls.Certificate{}, err
+	}
+	return tls.Certificate{Certificate: [][]byte{der}, PrivateKey: key}, nil
+}
+
+// resumedHello completes one handshake between a crypto/tls client and server (so that the
+// client's session cache holds a ticket / PSK) and returns the ClientHello the same client
+// configuration writes next: it carries a session_ticket (TLS 1.2) or pre_shared_key and
+// psk_key_exchange_modes (TLS 1.3) extension.
+func resumedHello(cert tls.Certificate, cfg *tls.Config) []byte {
+	scfg := &tls.Config{Certificates: []tls.Certificate{cert}, MinVersion: cfg.MinVersion, MaxVersion: cfg.MaxVersion, NextProtos: cfg.NextProtos}
+	// loopback TCP, not net.Pipe: with an unbuffered pipe two alerts written at the same
+	// time block each other until the deadline
+	ln, err := net.Listen("tcp", "127.0.0.1:0")
+	if err != nil {
+		return nil
+	}
+	defer ln.Close()
+	c1, err := net.Dial("tcp", ln.Addr().String())
+	if err != nil {
+		return nil
+	}
+	c2, err := ln.Accept()
+	if err != nil {
+		c1.Close()
+		return nil
+	}
+	done := make(chan struct{})
+	go func() {
+		defer close(done)
+		s := tls.Server(c2, scfg)
+		s.SetDeadline(time.Now().Add(5 * time.Second))
+		if s.Handshake() == nil {
+			s.Write([]byte{1})
+			io.Copy(io.Discard, s)
+		}
+		c2.Close()
+	}()
+	c := tls.Client(c1, cfg)
+	c.SetDeadline(time.Now().Add(5 * time.Second))
+	if err := c.Handshake(); err != nil {
+		c1.Close()
+		<-done
+		return nil
+	}
+	buf := make([]byte, 1)
+	c.Read(buf) // lets a TLS 1.3 client process NewSessionTicket
+	c.Close()
+	c1.Close()
+	<-done
+	return realHello(cfg)
+}
+
 var labels = []string{"a", "www", "api", "foo", "bar-baz", "x1", "xn--bcher-kva", "EXAMPLE", "Test", "svc", "internal", "very-long-label-0123456789-0123456789-0123456789-0123456789ab"}
 var tlds = []string{"com", "org", "io", "local", "example", "co.uk"}
 
@@ -151,6 +225,12 @@ type sniEntry struct {
 	Type int
 	Name []byte
 }
+// what one server_name extension holds: entries, then stray bytes inside the list that do
+// not form an entry
+type sniGen struct {
+	Entries []sniEntry
+	Junk    []byte
+}
 type hello struct {
 	VersHi, VersLo int
 	Random         []byte
@@ -159,8 +239,17 @@ type hello struct {
 	Compress       []byte
 	Exts           []ext
 	HasExts        bool
-	SNI            []sniEntry // the entries inside the (single) server_name extension
+	SNI            []sniEntry // the entries inside the server_name extension when there is exactly one (used by fudged)
 	HasSNI         bool
+	SNIs           []sniGen // the content of every server_name extension, in order
+}
+
+func (h *hello) clone() *hello {
+	c := *h
+	c.Exts = append([]ext(nil), h.Exts...)
+	c.SNI = append([]sniEntry(nil), h.SNI...)
+	c.SNIs = append([]sniGen(nil), h.SNIs...)
+	return &c
 }
 
 func be16(n int) []byte { return []byte{byte(n >> 8), byte(n)} }
@@ -173,6 +262,120 @@ func encSNI(l []sniEntry) []byte {
 		body = append(body, e.Name...)
 	}
 	return append(be16(len(body)), body...)
+}
+
+func encSNIGen(g sniGen) []byte {
+	body := encSNI(g.Entries)[2:]
+	body = append(body, g.Junk...)
+	return append(be16(len(body)), body...)
+}
+
+// parseSNI splits the data of a server_name extension into entries and the unparseable rest;
+// ok=false when the 16-bit list length does not match (not representable as a sniGen).
+func parseSNI(data []byte) (g sniGen, ok bool) {
+	if len(data) < 2 || int(data[0])<<8|int(data[1]) != len(data)-2 {
+		return g, false
+	}
+	rest := data[2:]
+	for len(rest) > 0 {
+		if len(rest) < 3 {
+			break
+		}
+		nl := int(rest[1])<<8 | int(rest[2])
+		if len(rest) < 3+nl {
+			break
+		}
+		g.Entries = append(g.Entries, sniEntry{Type: int(rest[0]), Name: append([]byte(nil), rest[3:3+nl]...)})
+		rest = rest[3+nl:]
+	}
+	g.Junk = append([]byte(nil), rest...)
+	return g, true
+}
+
+// setSNIs recomputes SNIs / SNI / HasSNI from the extension list.
+func (h *hello) setSNIs() bool {
+	h.SNIs, h.SNI, h.HasSNI = nil, nil, false
+	for _, e := range h.Exts {
+		if e.Type != 0 {
+			continue
+		}
+		g, ok := parseSNI(e.Data)
+		if !ok {
+			return false
+		}
+		h.SNIs = append(h.SNIs, g)
+	}
+	if len(h.SNIs) == 1 && len(h.SNIs[0].Junk) == 0 && len(h.SNIs[0].Entries) > 0 {
+		h.SNI, h.HasSNI = h.SNIs[0].Entries, true
+	}
+	return true
+}
+
+// parseHello is the harness's own reader of a handshake message into the AST (used on real
+// crypto/tls hellos); it shares no code with fabio's parser.  ok=false: not representable.
+func parseHello(hs []byte) (*hello, bool) {
+	if len(hs) < 4 || hs[0] != 1 || int(hs[1])<<16|int(hs[2])<<8|int(hs[3]) != len(hs)-4 {
+		return nil, false
+	}
+	b := hs[4:]
+	take := func(k int) ([]byte, bool) {
+		if k < 0 || len(b) < k {
+			return nil, false
+		}
+		x := b[:k]
+		b = b[k:]
+		return append([]byte(nil), x...), true
+	}
+	h := &hello{}
+	v, ok := take(2)
+	if !ok {
+		return nil, false
+	}
+	h.VersHi, h.VersLo = int(v[0]), int(v[1])
+	if h.Random, ok = take(32); !ok {
+		return nil, false
+	}
+	l, ok := take(1)
+	if !ok {
+		return nil, false
+	}
+	if h.Session, ok = take(int(l[0])); !ok {
+		return nil, false
+	}
+	if l, ok = take(2); !ok {
+		return nil, false
+	}
+	if h.Ciphers, ok = take(int(l[0])<<8 | int(l[1])); !ok {
+		return nil, false
+	}
+	if l, ok = take(1); !ok {
+		return nil, false
+	}
+	if h.Compress, ok = take(int(l[0])); !ok {
+		return nil, false
+	}
+	if len(b) == 0 {
+		return h, true
+	}
+	h.HasExts = true
+	if l, ok = take(2); !ok || int(l[0])<<8|int(l[1]) != len(b) {
+		return nil, false
+	}
+	for len(b) > 0 {
+		hd, ok := take(4)
+		if !ok {
+			return nil, false
+		}
+		d, ok := take(int(hd[2])<<8 | int(hd[3]))
+		if !ok {
+			return nil, false
+		}
+		h.Exts = append(h.Exts, ext{Type: int(hd[0])<<8 | int(hd[1]), Data: d})
+	}
+	if !h.setSNIs() {
+		return nil, false
+	}
+	return h, true
 }
 
 func (h *hello) body() []byte {
@@ -271,8 +474,14 @@ func (h *hello) fudged(field string, delta int, r *rand.Rand) []byte {
 	return append([]byte{1, byte(n >> 16), byte(n >> 8), byte(n)}, b...)
 }
 
+// record wraps hs in one handshake record.  fabio ignores the record version; crypto/tls
+// accepts any first-record version below 0x1000.
+var recRng *rand.Rand
+var recVersions = [][2]byte{{3, 1}, {3, 1}, {3, 1}, {3, 3}, {3, 3}, {3, 0}, {3, 2}, {3, 4}, {2, 0}, {0, 0}, {15, 255}}
+
 func record(hs []byte) []byte {
-	return append([]byte{22, 3, 1, byte(len(hs) >> 8), byte(len(hs))}, hs...)
+	v := recVersions[recRng.Intn(len(recVersions))]
+	return append([]byte{22, v[0], v[1], byte(len(hs) >> 8), byte(len(hs))}, hs...)
 }
 
 func randBytes(r *rand.Rand, n int) []byte {
@@ -306,7 +515,7 @@ func extBody(r *rand.Rand, typ int) []byte {
 	}
 }
 
-func genHello(r *rand.Rand) *hello {
+func genBase(r *rand.Rand, forceExts bool) *hello {
 	h := &hello{VersHi: 3, VersLo: 1 + r.Intn(3), Random: randBytes(r, 32)}
 	h.Session = randBytes(r, []int{0, 32, r.Intn(33)}[r.Intn(3)])
 	nc := 1 + r.Intn(20)
@@ -316,7 +525,7 @@ func genHello(r *rand.Rand) *hello {
 		h.Ciphers = append(h.Ciphers, byte(id>>8), byte(id))
 	}
 	h.Compress = []byte{0}
-	if r.Intn(12) == 0 {
+	if !forceExts && r.Intn(12) == 0 {
 		return h // no extension block at all
 	}
 	h.HasExts = true
@@ -330,22 +539,71 @@ func genHello(r *rand.Rand) *hello {
 		}
 		h.Exts = append(h.Exts, e)
 	}
-	if r.Intn(6) != 0 {
-		h.HasSNI = true
+	return h
+}
+
+// insertSNI adds a server_name extension holding g at a random position.
+func (h *hello) insertSNI(r *rand.Rand, g sniGen) {
+	h.HasExts = true
+	pos := r.Intn(len(h.Exts) + 1)
+	e := ext{Type: 0, Data: encSNIGen(g)}
+	h.Exts = append(h.Exts[:pos], append([]ext{e}, h.Exts[pos:]...)...)
+	if !h.setSNIs() {
+		panic("harness: generated server_name data does not parse back")
+	}
+}
+
+func otherEntries(r *rand.Rand) []sniEntry {
+	var l []sniEntry
+	for i := r.Intn(3); i > 0 && r.Intn(4) == 0; i-- {
+		l = append(l, sniEntry{Type: 1 + r.Intn(200), Name: randBytes(r, 1+r.Intn(20))})
+	}
+	return l
+}
+
+func genHello(r *rand.Rand) *hello {
+	h := genBase(r, false)
+	if h.HasExts && r.Intn(6) != 0 {
 		// non-host_name entries before / after the single host_name entry; crypto/tls
 		// skips them (it requires them to be non-empty)
-		for i := r.Intn(3); i > 0 && r.Intn(4) == 0; i-- {
-			h.SNI = append(h.SNI, sniEntry{Type: 1 + r.Intn(200), Name: randBytes(r, 1+r.Intn(20))})
-		}
-		h.SNI = append(h.SNI, sniEntry{Type: 0, Name: []byte(randHost(r))})
-		for i := r.Intn(3); i > 0 && r.Intn(4) == 0; i-- {
-			h.SNI = append(h.SNI, sniEntry{Type: 1 + r.Intn(200), Name: randBytes(r, 1+r.Intn(20))})
-		}
-		pos := r.Intn(len(h.Exts) + 1)
-		e := ext{Type: 0, Data: encSNI(h.SNI)}
-		h.Exts = append(h.Exts[:pos], append([]ext{e}, h.Exts[pos:]...)...)
+		l := otherEntries(r)
+		l = append(l, sniEntry{Type: 0, Name: []byte(randHost(r))})
+		l = append(l, otherEntries(r)...)
+		h.insertSNI(r, sniGen{Entries: l})
 	}
 	return h
+}
+
+// names a client can put on the wire and a router must not choke on: bytes >= 0x80, NUL,
+// trailing / leading dot, upper case, blanks, very long
+func oddName(r *rand.Rand) []byte {
+	base := randHost(r)
+	switch r.Intn(12) {
+	case 0:
+		return []byte(base + ".")
+	case 1:
+		return []byte("." + base)
+	case 2:
+		return []byte(base + "\x00")
+	case 3:
+		return []byte("a\x00" + base)
+	case 4:
+		return []byte("b\xc3\xbccher." + base)
+	case 5:
+		return append([]byte(base), 0x80, 0xff)
+	case 6:
+		return []byte(strings.ToUpper(base))
+	case 7:
+		return []byte(" " + base + " ")
+	case 8:
+		return []byte(strings.Repeat("a", 250+r.Intn(10)) + "." + base)
+	case 9:
+		return []byte(strings.Repeat("x.", 300+r.Intn(400)) + base)
+	case 10:
+		return []byte(".")
+	default:
+		return randBytes(r, 1+r.Intn(30))
+	}
 }
 
 func coqHello(h *hello) string {
@@ -361,15 +619,16 @@ func coqHello(h *hello) string {
 		vh.N(h.VersHi), vh.N(h.VersLo), vh.Hx(h.Random), vh.Hx(h.Session), vh.Hx(h.Ciphers), vh.Hx(h.Compress), exts)
 }
 
-func coqSNI(h *hello) string {
-	if !h.HasSNI {
-		return vh.None
+func coqSNIs(h *hello) string {
+	gens := make([]string, len(h.SNIs))
+	for k, g := range h.SNIs {
+		items := make([]string, len(g.Entries))
+		for i, e := range g.Entries {
+			items[i] = fmt.Sprintf("{| sn_type := %s; sn_name := %s |}", vh.N(e.Type), vh.Hx(e.Name))
+		}
+		gens[k] = vh.Pair(vh.List(items), vh.Hx(g.Junk))
 	}
-	items := make([]string, len(h.SNI))
-	for i, e := range h.SNI {
-		items[i] = fmt.Sprintf("{| sn_type := %s; sn_name := %s |}", vh.N(e.Type), vh.Hx(e.Name))
-	}
-	return vh.Some(vh.List(items))
+	return vh.List(gens)
 }
 
 // ---------- running the implementation ----------
@@ -417,22 +676,74 @@ func implRead(msg []byte) (string, string) {
 	return vh.Ok(vh.HxS(name)), name
 }
 
-// implStream runs the real SNIProxy.ServeTCP on a scripted connection; the
-// observable is the host handed to Lookup (routing decision input).
-func implStream(segs [][]byte) string {
+// recCounter records every Add: the first one on a target's RxCounter is the number of bytes
+// ServeTCP had buffered and wrote to the upstream before tunnelling (sni_proxy.go:129-141).
+type recCounter struct {
+	mu   sync.Mutex
+	adds []float64
+}
+
+func (c *recCounter) With(...string) gkm.Counter { return c }
+func (c *recCounter) Add(d float64) {
+	c.mu.Lock()
+	c.adds = append(c.adds, d)
+	c.mu.Unlock()
+}
+
+// a loopback upstream that swallows what it is sent and sends nothing
+var upstreamAddr string
+
+func startUpstream() {
+	ln, err := net.Listen("tcp", "127.0.0.1:0")
+	if err != nil {
+		panic(err)
+	}
+	upstreamAddr = ln.Addr().String()
+	go func() {
+		for {
+			c, err := ln.Accept()
+			if err != nil {
+				return
+			}
+			go func() { io.Copy(io.Discard, c); c.Close() }()
+		}
+	}()
+}
+
+// implStream runs the real SNIProxy.ServeTCP on a scripted connection; the observables are
+// the host handed to Lookup (routing decision input) and the number of bytes buffered
+// before routing (-1: not routed / not observed).
+func implStream(segs [][]byte) (string, int) {
 	called, host := false, ""
-	p := &tcp.SNIProxy{Lookup: func(h string) *route.Target { called, host = true, h; return nil }}
+	rx := &recCounter{}
+	p := &tcp.SNIProxy{DialTimeout: 5 * time.Second, Lookup: func(h string) *route.Target {
+		called, host = true, h
+		return &route.Target{URL: &url.URL{Host: upstreamAddr}, RxCounter: rx}
+	}}
 	cp := make([][]byte, len(segs))
 	for i := range segs {
 		cp[i] = append([]byte(nil), segs[i]...)
 	}
 	if pn, _ := vh.Recover(func() { _ = p.ServeTCP(&scriptConn{segs: cp}) }); pn {
-		return vh.Panic
+		return vh.Panic, -1
 	}
 	if !called {
-		return vh.Err(0)
+		return vh.Err(0), -1
 	}
-	return vh.Ok(vh.HxS(host))
+	rx.mu.Lock()
+	defer rx.mu.Unlock()
+	n := -1
+	if len(rx.adds) > 0 {
+		n = int(rx.adds[0])
+	}
+	return vh.Ok(vh.HxS(host)), n
+}
+
+func coqOptN(n int) string {
+	if n < 0 {
+		return vh.None
+	}
+	return vh.Some(vh.N(n))
 }
 
 func segment(r *rand.Rand, b []byte) [][]byte {
@@ -451,18 +762,23 @@ func segment(r *rand.Rand, b []byte) [][]byte {
 func main() {
 	run := vh.Start("C10")
 	r := run.Rng
+	recRng = r
+	startUpstream()
 
+	tlsCoqOf := func(rec []byte) (string, string, bool) {
+		tlsName, tlsOK := tlsServerName(rec)
+		if tlsOK {
+			return vh.Some(vh.HxS(tlsName)), tlsName, true
+		}
+		return vh.None, "", false
+	}
 	addRead := func(class string, rec []byte, note string) {
 		if len(rec) < 5 {
 			rec = append(rec, make([]byte, 5-len(rec))...)
 		}
 		msg := rec[5:]
 		impl, got := implRead(msg)
-		tlsName, tlsOK := tlsServerName(rec)
-		tlsCoq := vh.None
-		if tlsOK {
-			tlsCoq = vh.Some(vh.HxS(tlsName))
-		}
+		tlsCoq, tlsName, tlsOK := tlsCoqOf(rec)
 		run.Add(class, vh.App("CRead", vh.Hx(msg), impl, tlsCoq),
 			map[string]interface{}{"fn": "readServerName", "msg_len": len(msg), "impl": got, "tls_ok": tlsOK, "tls_name": tlsName, "note": note, "msg_hex_prefix": fmt.Sprintf("%x", msg[:min(len(msg), 48)])})
 	}
@@ -470,63 +786,216 @@ func main() {
 		run.Add(class, vh.App("CBuf", vh.Hx(data), implBuf(data)),
 			map[string]interface{}{"fn": "clientHelloBufferSize", "data_hex": fmt.Sprintf("%x", data[:min(len(data), 16)]), "len": len(data)})
 	}
+	// accepted streams (routed by the real code) are kept for the truncation class
+	type routed struct {
+		stream []byte
+		n      int
+	}
+	var routedStreams []routed
 	addStream := func(class string, stream []byte) {
 		segs := segment(r, stream)
-		tlsName, tlsOK := tlsServerName(stream)
-		tlsCoq := vh.None
-		if tlsOK {
-			tlsCoq = vh.Some(vh.HxS(tlsName))
+		tlsCoq, _, _ := tlsCoqOf(stream)
+		impl, n := implStream(segs)
+		if n >= 0 {
+			routedStreams = append(routedStreams, routed{append([]byte(nil), stream...), n})
 		}
-		run.Add(class, vh.App("CStream", vh.Hx(stream), implStream(segs), tlsCoq),
-			map[string]interface{}{"fn": "SNIProxy.ServeTCP", "stream_len": len(stream), "segments": len(segs)})
+		run.Add(class, vh.App("CStream", vh.Hx(stream), impl, coqOptN(n), tlsCoq),
+			map[string]interface{}{"fn": "SNIProxy.ServeTCP", "stream_len": len(stream), "segments": len(segs), "consumed": n})
 	}
+	// a hello as an AST: readServerName on the harness's encoding of it, crypto/tls on the
+	// same bytes in one record; the Coq side re-encodes, checks well-formedness and judges
+	// by the RFC reference computed from h.SNIs
+	var corpus [][]byte
+	addHello := func(class string, h *hello, note string) bool {
+		hs := h.handshake()
+		if len(hs) > 16384 {
+			return false
+		}
+		rec := record(hs)
+		impl, got := implRead(hs)
+		tlsCoq, tlsName, tlsOK := tlsCoqOf(rec)
+		run.Add(class, vh.App("CHello", coqHello(h), coqSNIs(h), vh.Hx(hs), impl, tlsCoq),
+			map[string]interface{}{"fn": "readServerName", "exts": len(h.Exts), "sni_exts": len(h.SNIs), "impl": got, "tls_ok": tlsOK, "tls_name": tlsName, "note": note})
+		corpus = append(corpus, rec)
+		return true
+	}
+	host := func() sniEntry { return sniEntry{Type: 0, Name: []byte(randHost(r))} }
 
 	// 1. real ClientHellos written by crypto/tls clients
-	var corpus [][]byte
+	cert, certErr := selfSigned()
+	var realCorpus [][]byte
 	nReal := run.Scale(120, 3000)
 	for i := 0; i < nReal; i++ {
 		cfg := randTLSConfig(r)
-		rec := realHello(cfg)
+		var rec []byte
+		resumed := false
+		if certErr == nil && i%4 == 0 && cfg.ServerName != "" {
+			// complete a handshake first so that the hello carries a session ticket / PSK
+			cfg.ClientSessionCache = tls.NewLRUClientSessionCache(4)
+			rec = resumedHello(cert, cfg)
+			resumed = rec != nil
+		}
+		if rec == nil {
+			rec = realHello(cfg)
+		}
 		if rec == nil {
 			run.Exclude("crypto/tls client produced no hello")
 			continue
 		}
-		corpus = append(corpus, rec)
-		addRead("real-hello", rec, fmt.Sprintf("sni=%q min=%x max=%x alpn=%v", cfg.ServerName, cfg.MinVersion, cfg.MaxVersion, cfg.NextProtos))
-		addBuf("real-hello-buf", rec[:min(len(rec), 9+r.Intn(8))])
-		if i%3 == 0 {
-			extra := randBytes(r, r.Intn(40))
-			addStream("real-hello-stream", append(append([]byte(nil), rec...), extra...))
+		class := "real-hello"
+		if resumed {
+			class = "real-hello-resumed"
+			has := false
+			if h, ok := parseHello(rec[5:]); ok {
+				for _, e := range h.Exts {
+					if (e.Type == 35 && len(e.Data) > 0) || e.Type == 41 {
+						has = true
+					}
+				}
+			}
+			if !has {
+				run.Exclude("resumed hello carries no ticket / PSK")
+				class = "real-hello"
+			}
 		}
+		corpus = append(corpus, rec)
+		realCorpus = append(realCorpus, rec)
+		addRead(class, rec, fmt.Sprintf("sni=%q min=%x max=%x alpn=%v", cfg.ServerName, cfg.MinVersion, cfg.MaxVersion, cfg.NextProtos))
+		addBuf("real-hello-buf", rec[:min(len(rec), 9+r.Intn(8))])
+		if i%3 == 0 || resumed {
+			extra := randBytes(r, r.Intn(40))
+			addStream(class+"-stream", append(append([]byte(nil), rec...), extra...))
+		}
+	}
+
+	// 1a. the same real hellos read into the AST by the harness's own reader: they must lie in
+	// the theorems' domain (Coq re-encodes to the same bytes, wf_hello_b holds); then with the
+	// server_name part altered in the ways RFC 6066 / 8446 forbid
+	for i, rec := range realCorpus {
+		if i%2 != 0 {
+			continue
+		}
+		h, ok := parseHello(rec[5:])
+		if !ok {
+			run.Violation(run.NextID(), "harness: a crypto/tls ClientHello is not the encoding of a hello AST", fmt.Sprintf("%x", rec))
+			continue
+		}
+		addHello("real-hello-ast", h, "unchanged")
+		if len(h.SNIs) != 1 || len(h.SNIs[0].Entries) != 1 {
+			continue
+		}
+		name := h.SNIs[0].Entries[0].Name
+		var sniPos int
+		for k, e := range h.Exts {
+			if e.Type == 0 {
+				sniPos = k
+			}
+		}
+		m := h.clone()
+		note := ""
+		switch r.Intn(5) {
+		case 0: // a second server_name extension right after the first
+			e := ext{Type: 0, Data: encSNIGen(sniGen{Entries: []sniEntry{host()}})}
+			m.Exts = append(m.Exts[:sniPos+1], append([]ext{e}, m.Exts[sniPos+1:]...)...)
+			note = "second server_name extension"
+		case 1: // ... before it
+			e := ext{Type: 0, Data: encSNIGen(sniGen{Entries: []sniEntry{host()}})}
+			m.Exts = append(m.Exts[:sniPos], append([]ext{e}, m.Exts[sniPos:]...)...)
+			note = "server_name extension inserted before the original"
+		case 2:
+			m.Exts[sniPos] = ext{Type: 0, Data: encSNIGen(sniGen{Entries: []sniEntry{{Type: 0, Name: append(append([]byte(nil), name...), '.')}}})}
+			note = "trailing dot"
+		case 3:
+			m.Exts[sniPos] = ext{Type: 0, Data: encSNIGen(sniGen{Entries: []sniEntry{{Type: 0, Name: name}, host()}})}
+			note = "second host_name"
+		case 4:
+			m.Exts[sniPos] = ext{Type: 0, Data: encSNIGen(sniGen{Entries: []sniEntry{{Type: 0, Name: oddName(r)}}})}
+			note = "odd name"
+		}
+		if !m.setSNIs() {
+			panic("harness: altered server_name data does not parse back")
+		}
+		addHello("real-hello-ast-altered", m, note)
 	}
 
 	// 2. hellos generated from the AST (padding, GREASE, unknown extensions, SNI lists)
 	nAst := run.Scale(250, 6000)
 	for i := 0; i < nAst; i++ {
 		h := genHello(r)
-		hs := h.handshake()
-		rec := record(hs)
-		if len(hs) > 16384 {
+		if !addHello("ast-hello", h, "") {
 			continue
 		}
-		corpus = append(corpus, rec)
-		impl, got := implRead(hs)
-		tlsName, tlsOK := tlsServerName(rec)
-		tlsCoq := vh.None
-		if tlsOK {
-			tlsCoq = vh.Some(vh.HxS(tlsName))
+		if i%4 == 0 {
+			addStream("ast-hello-stream", append(record(h.handshake()), randBytes(r, r.Intn(30))...))
 		}
-		want := ""
-		for _, e := range h.SNI {
-			if e.Type == 0 {
-				want = string(e.Name)
-				break
+	}
+
+	// 2d. the server_name extension in every shape, the rest of the hello valid
+	// (i) two server_name extensions, each with / without a host_name entry
+	for i := 0; i < run.Scale(48, 800); i++ {
+		h := genBase(r, true)
+		for k := 0; k < 2; k++ {
+			withHost := (i>>k)&1 == 1
+			var l []sniEntry
+			if withHost {
+				l = append(otherEntries(r), host())
+			} else if r.Intn(2) == 0 {
+				l = []sniEntry{{Type: 1 + r.Intn(200), Name: randBytes(r, 1+r.Intn(10))}}
+			}
+			h.insertSNI(r, sniGen{Entries: l})
+		}
+		if i%8 >= 4 { // a third one now and then
+			h.insertSNI(r, sniGen{Entries: []sniEntry{host()}})
+		}
+		addHello("dup-sni", h, fmt.Sprintf("combo=%d", i%4))
+	}
+	// (ii) lists with two or more host_name entries (first wins in the code), other entries around
+	for i := 0; i < run.Scale(40, 600); i++ {
+		h := genBase(r, true)
+		l := otherEntries(r)
+		for k := 2 + r.Intn(2); k > 0; k-- {
+			l = append(l, host())
+			if r.Intn(3) == 0 {
+				l = append(l, sniEntry{Type: 1 + r.Intn(200), Name: randBytes(r, 1+r.Intn(10))})
 			}
 		}
-		run.Add("ast-hello", vh.App("CHello", coqHello(h), coqSNI(h), vh.Hx(hs), impl, tlsCoq),
-			map[string]interface{}{"fn": "readServerName", "exts": len(h.Exts), "has_sni": h.HasSNI, "sni_entries": len(h.SNI), "want": want, "impl": got, "tls_ok": tlsOK, "tls_name": tlsName})
-		if i%4 == 0 {
-			addStream("ast-hello-stream", append(append([]byte(nil), rec...), randBytes(r, r.Intn(30))...))
+		h.insertSNI(r, sniGen{Entries: l})
+		addHello("multi-host", h, fmt.Sprintf("entries=%d", len(l)))
+	}
+	// (iii) empty list, zero-length names, odd names, stray bytes inside the list
+	for i := 0; i < run.Scale(96, 1200); i++ {
+		h := genBase(r, true)
+		var g sniGen
+		class := ""
+		switch i % 8 {
+		case 0:
+			class = "sni-empty-list"
+		case 1:
+			class = "sni-empty-name"
+			g.Entries = []sniEntry{{Type: 0, Name: nil}}
+			if r.Intn(2) == 0 {
+				g.Entries = append(g.Entries, host())
+			}
+		case 2:
+			class = "sni-empty-name"
+			g.Entries = []sniEntry{{Type: 1 + r.Intn(200), Name: nil}, host()}
+		case 3, 4, 5:
+			class = "sni-odd-name"
+			g.Entries = append(otherEntries(r), sniEntry{Type: 0, Name: oddName(r)})
+		case 6:
+			class = "sni-junk"
+			g.Entries = []sniEntry{host()}
+			g.Junk = randBytes(r, 1+r.Intn(8))
+		case 7:
+			class = "sni-junk"
+			g.Entries = otherEntries(r)
+			g.Junk = randBytes(r, 1+r.Intn(2))
+		}
+		// canonical form: whatever of the stray bytes parses as entries is entries
+		g, _ = parseSNI(encSNIGen(g))
+		h.insertSNI(r, g)
+		if addHello(class, h, "") && i%3 == 0 {
+			addStream(class+"-stream", append(record(h.handshake()), randBytes(r, r.Intn(20))...))
 		}
 	}
 
@@ -536,7 +1005,7 @@ func main() {
 	for i := 0; i < run.Scale(36, 600); i++ {
 		h := genHello(r)
 		h.HasExts = true
-		base := len(record(h.handshake()))
+		base := len(h.handshake()) + 5
 		targets := []int{4091, 4096, 4097, 4101, 8192, 16384 + 5, 16384 + 4, 4000 + r.Intn(12000), 4000 + r.Intn(12000)}
 		want := targets[i%len(targets)]
 		pad := want - base - 4
@@ -555,6 +1024,44 @@ func main() {
 		if i%3 == 0 {
 			addRead("large-hello", rec, fmt.Sprintf("record=%d", len(rec)))
 		}
+	}
+
+	// 2e. a record longer than the handshake message it carries (hl + 4 < rl): the rest of the
+	// record is not consumed; and a hello spread over two records: never routed
+	for i := 0; i < run.Scale(40, 600); i++ {
+		h := genHello(r)
+		hs := h.handshake()
+		slack := []int{1, 2, 4, 5, 100, 1 + r.Intn(2000)}[i%6]
+		if len(hs)+slack > 16384 {
+			continue
+		}
+		var tail []byte
+		if i%2 == 0 {
+			tail = randBytes(r, slack)
+		} else {
+			tail = make([]byte, slack)
+		}
+		rl := len(hs) + slack
+		stream := append([]byte{22, 3, 1, byte(rl >> 8), byte(rl)}, hs...)
+		stream = append(stream, tail...)
+		stream = append(stream, randBytes(r, r.Intn(20))...)
+		addStream("slack-record-stream", stream)
+	}
+	for i := 0; i < run.Scale(48, 600); i++ {
+		var hs []byte
+		if i%2 == 0 && len(realCorpus) > 0 {
+			hs = realCorpus[r.Intn(len(realCorpus))][5:]
+		} else {
+			hs = genHello(r).handshake()
+		}
+		cut := []int{1, 2, 3, 4, 5, 43, len(hs) - 1, 4 + r.Intn(len(hs)-4)}[i%8]
+		stream := append(record(hs[:cut]), record(hs[cut:])...)
+		stream = append(stream, randBytes(r, r.Intn(20))...)
+		segs := segment(r, stream)
+		tlsCoq, tlsName, tlsOK := tlsCoqOf(stream)
+		impl, _ := implStream(segs)
+		run.Add("fragmented-stream", vh.App("CFrag", vh.Hx(stream), impl, tlsCoq),
+			map[string]interface{}{"fn": "SNIProxy.ServeTCP", "first_fragment": cut, "handshake_len": len(hs), "tls_ok": tlsOK, "tls_name": tlsName})
 	}
 
 	// 2c. truncation at (and one byte around) every structural boundary of the message: the
@@ -608,9 +1115,16 @@ func main() {
 	for i := 0; i < run.Scale(40, 800); i++ {
 		h := genHello(r)
 		if i%2 == 0 { // make sure the SNI entry is the last thing in the message half of the time
-			h.HasExts, h.HasSNI = true, true
-			h.SNI = []sniEntry{{Type: 0, Name: []byte(randHost(r))}}
-			h.Exts = append(h.Exts[:min(len(h.Exts), r.Intn(3))], ext{Type: 0, Data: encSNI(h.SNI)})
+			h.HasExts = true
+			var keep []ext
+			for _, e := range h.Exts {
+				if e.Type != 0 && len(keep) < 2 {
+					keep = append(keep, e)
+				}
+			}
+			l := []sniEntry{host()}
+			h.Exts = append(keep, ext{Type: 0, Data: encSNI(l)})
+			h.setSNIs()
 		}
 		for _, field := range fudgeFields {
 			for _, delta := range []int{-2, -1, 1, 2} {
@@ -647,6 +1161,22 @@ func main() {
 			addStream("truncated-stream", rec)
 		}
 	}
+
+	// 3a. the truncation clause on the real path: every strict prefix of what ServeTCP consumed
+	// of an accepted stream must be rejected (and a prefix that is not strict is still routed)
+	for i := 0; i < run.Scale(60, 1000) && len(routedStreams) > 0; i++ {
+		rs := routedStreams[r.Intn(len(routedStreams))]
+		ks := []int{rs.n - 1, rs.n - 2, 9, 10, 8, 5 + r.Intn(rs.n-5), r.Intn(rs.n), rs.n, min(rs.n+1, len(rs.stream))}
+		k := ks[i%len(ks)]
+		if k < 0 {
+			k = 0
+		}
+		full, fulln := implStream(segment(r, rs.stream))
+		cut, _ := implStream(segment(r, rs.stream[:k]))
+		run.Add("prefix-of-consumed", vh.App("CTrunc", vh.Hx(rs.stream), vh.N(k), full, coqOptN(fulln), cut),
+			map[string]interface{}{"fn": "SNIProxy.ServeTCP", "stream_len": len(rs.stream), "consumed": fulln, "cut": k})
+	}
+
 	// 4. short and random inputs
 	for i := 0; i < run.Scale(80, 2000); i++ {
 		b := randBytes(r, r.Intn(60))
